@@ -1567,7 +1567,12 @@ RULE = ('every public raster function (registry below = RASTER_FUNCS) x backend 
         'ones, deep-copied attrs, name, non-raster arguments) before/after the call, np.shares_memory(output, every input '
         'buffer), write-to-output probe, output identity (shape, dims, coords, attrs, backend), compared with the property text '
         '(oracle) and with the verdict of the extracted checker on the regenerated IR of that function (correspondence); plus '
-        'call sequences of length 2..4 on the same raster objects. Quick tier: a latin-square sample of the cross product '
+        'call sequences of length 2..4 on the same raster objects. Appended theme streams: every public function with an array argument (incl. convolve_2d, custom_kernel, color_values, bands_to_img, lnglat_to_meters, summarize_terrain) with a transposed / strided '
+        '[::2, ::3] / reversed [::-1, ::-1] view at EACH argument position in turn (rasters, kernels, transforms) or all, named Dask '
+        'chunkings (irregular, 1-wide, single, rows, same maximum with different splits per argument), ascending / negative / '
+        'fractional / 1e6-spaced coordinates with x != y, degenerate shapes (1x1, 1xN, Nx1, 2x2) and fills (all-NaN, all-equal), list '
+        'parameters given as ndarrays of another dtype, and call sequences over rasters DERIVED from the shared one (slice, '
+        'assign_coords, shallow copy, astype, reversed isel, previous output). Quick tier: a latin-square sample of the cross product '
         '(every dtype, layout and backend occurs for several functions); thorough tier: the full backend x dtype x layout product, 60 sequences. A case is '
         'non-trivial when the call returned a result (calls that raise for a dtype/layout are counted separately and still '
         'checked for unmodified inputs).')
